@@ -40,6 +40,8 @@ enum Behav {
 	B_STATUS_CONTENT,     // non-zero status (ordinary codes and multiples of 2^32) on a reply that otherwise carries honest content
 	B_EXTRA_LINKS,        // ext: surplus right links at the input end / surplus left links at the far end of a genuine chain
 	B_NO_AGG_TIME,        // ext: genuine chain without the optional aggregation-time element (absent means "equal to the publication time")
+	B_RESP_PLUS_ERROR,    // version 2: an authentic PDU that carries the honest response payload and an error payload
+	B_V1_REFLECT,         // version 1: the client's own header, request and MAC with an (uncovered) response payload spliced in
 	B__COUNT
 };
 const char *behav_name(int b);
